@@ -74,7 +74,13 @@ func vC09App() *EVMApp {
 	if err != nil {
 		panic(err)
 	}
-	return &EVMApp{Signer: etypes.FrontierSigner{}, stateDb: db, currentState: st, chainConfig: params.MainnetChainConfig}
+	// app.state is the state as of the last committed block (served to queries and the pool),
+	// currentState the one the block being executed works on
+	committed, err := estate.New(common.Hash{}, estate.NewDatabase(db))
+	if err != nil {
+		panic(err)
+	}
+	return &EVMApp{Signer: etypes.FrontierSigner{}, stateDb: db, state: committed, currentState: st, chainConfig: params.MainnetChainConfig}
 }
 
 func vC09KVPayload(kv *rtypes.KV, decodable bool) []byte {
@@ -122,8 +128,11 @@ func VerifHarness_C09_exec_step() {
 		tx = vC09Sign(etypes.NewTransaction(txNonce, to, big.NewInt(0), uint64(vNondetLen("gas", 0, 1))*30000, big.NewInt(0), []byte{1}))
 	}
 	if kind == 3 { // contract creation whose init code fails (INVALID / REVERT / empty-return success)
-		codes := [][]byte{{0xfe}, {0x60, 0x00, 0x60, 0x00, 0xfd}, {0x00}}
-		tx = vC09Sign(etypes.NewContractCreation(txNonce, big.NewInt(0), 200000, big.NewInt(0), codes[vNondetLen("initcode", 0, 2)]))
+		// ... or calls the RIPEMD precompile (address 3, the account go-ethereum's "touch" special case is
+		// about) with value 0 and then aborts
+		callThenAbort := []byte{0x60, 0x00, 0x60, 0x00, 0x60, 0x00, 0x60, 0x00, 0x60, 0x00, 0x60, 0x03, 0x60, 0x00, 0xf1, 0xfe}
+		codes := [][]byte{{0xfe}, {0x60, 0x00, 0x60, 0x00, 0xfd}, {0x00}, callThenAbort}
+		tx = vC09Sign(etypes.NewContractCreation(txNonce, big.NewInt(0), 200000, big.NewInt(0), codes[vNondetLen("initcode", 0, 3)]))
 	}
 	nr, nk := len(app.receipts), len(app.kvs)
 	senderOf := func() common.Address {
@@ -204,4 +213,51 @@ func VerifHarness_C09_invalid_tx_is_inert() {
 	vAssert(e0 == nil && n0 == 2 && v0 == 1 && r0 == 1, "T4-good-tx-alone-is-valid")
 	vAssert((e1 == nil) == (e0 == nil), "T4-good-tx-fares-the-same-after-an-invalid-one")
 	vAssert(n1 == n0 && v1 == v0 && r1 == r0 && i1 == 1, "T4-invalid-tx-leaves-no-trace-in-the-block")
+}
+
+
+// T5: several transactions of one sender in ONE block. The nonce rule is applied against the
+// state the block is building: two key-value transactions with nonces n, n+1 are both valid, the
+// same key-value transaction twice is valid once, an EVM call after a key-value transaction continues
+// the sequence.
+func VerifHarness_C09_same_sender_sequence() {
+	app := vC09App()
+	st := app.currentState
+	n := uint64(vNondetLen("nonce", 0, 1))
+	st.SetNonce(vC09From, n)
+	st.AddBalance(vC09From, big.NewInt(1000000))
+	block := &gtypes.Block{Header: &gtypes.Header{ChainID: "c", Height: 7}, Data: &gtypes.Data{}, LastCommit: &gtypes.Commit{}}
+	var res gtypes.ExecuteResult
+	begin := app.genExecFun(block, &res) // real code
+	kvTx := func(nonce uint64, key string) *etypes.Transaction {
+		kv := &rtypes.KV{Key: []byte(key), Value: []byte("v")}
+		return vC09Sign(etypes.NewTransaction(nonce, common.Address{}, nil, 0, nil, append([]byte{}, vC09KVPayload(kv, true)...)))
+	}
+	first := kvTx(n, "ka")
+	var second *etypes.Transaction
+	wantSecond := true
+	switch vNondetLen("second", 0, 2) {
+	case 0:
+		second = kvTx(n+1, "kb") // the next one in sequence
+	case 1:
+		second = first // the very same transaction again: a replay inside the block
+		wantSecond = false
+	default:
+		second = vC09Sign(etypes.NewTransaction(n+1, vC19Addr(8), big.NewInt(0), 30000, big.NewInt(0), []byte{1}))
+	}
+	exec, end := begin()
+	e1 := exec(0, []byte{1}, first)
+	end([]byte{1}, e1)
+	exec, end = begin()
+	e2 := exec(1, []byte{2}, second)
+	end([]byte{2}, e2)
+	vReach("two-transactions-executed")
+	vAssert(e1 == nil, "T5-first-transaction-valid")
+	vAssert((e2 == nil) == wantSecond, "T5-second-transaction-judged-against-the-block-state")
+	want := n + 1
+	if wantSecond {
+		want++
+	}
+	vAssert(st.GetNonce(vC09From) == want, "T5-nonce-advances-once-per-valid-transaction")
+	vAssert(len(res.ValidTxs) == int(want-n) && len(res.InvalidTxs) == 2-int(want-n), "T5-valid-invalid-split")
 }
